@@ -147,6 +147,61 @@ theorem fdiff_row0_sum_one (grid : Array ℚ) (M : ℕ) (z : ℚ) (hg : GoodGrid
     rw [degree_one]; exact_mod_cast hg.1)
   simpa using this
 
+/-- every derivative row (order `1 ≤ k ≤ M`) annihilates constants: its weights sum to zero -/
+theorem fdiff_rowk_sum_zero (grid : Array ℚ) (M : ℕ) (z : ℚ) (hg : GoodGrid grid) :
+    ∃ w, weights grid M z = .ok w ∧
+      ∀ k, 1 ≤ k → k ≤ M → ∑ j ∈ range grid.size, w.getD (j + k * grid.size) 0 = 0 := by
+  obtain ⟨w, hw, _, h⟩ := fdiff_exact grid M z hg
+  refine ⟨w, hw, ?_⟩
+  intro k hk1 hkM
+  have := h k hkM 1 (by rw [degree_one]; exact_mod_cast hg.1)
+  rw [iterate_derivative_one (by omega)] at this
+  simpa using this
+
+/-- **uniqueness**: the returned order-`k` row is the *only* weight vector on the grid that is exact on all
+polynomials of degree `< len` — any other exact rule `v` coincides with it entry by entry.  (So a change to
+the recurrences that still returned *some* consistent-looking numbers cannot satisfy `fdiff_exact`.) -/
+theorem fdiff_unique (grid : Array ℚ) (M : ℕ) (z : ℚ) (hg : GoodGrid grid) :
+    ∃ w, weights grid M z = .ok w ∧
+      ∀ k ≤ M, ∀ v : ℕ → ℚ,
+        (∀ P : ℚ[X], P.degree < grid.size →
+          ∑ j ∈ range grid.size, v j * P.eval (grid.getD j 0) = (derivative^[k] P).eval z) →
+        ∀ i < grid.size, v i = w.getD (i + k * grid.size) 0 := by
+  obtain ⟨w, hw, _, h⟩ := fdiff_exact grid M z hg
+  refine ⟨w, hw, ?_⟩
+  intro k hk v hv i hi
+  have hinj : Set.InjOn (fun j => grid.getD j 0) (range grid.size) := by
+    have := injOn_of_nodup grid hg.2
+    intro a ha b hb hab
+    apply this ha hb
+    simpa [rd] using hab
+  have him : i ∈ range grid.size := mem_range.mpr hi
+  set B : ℚ[X] := Lagrange.basis (range grid.size) (fun j => grid.getD j 0) i with hB
+  have hdeg : B.degree < grid.size := by
+    rw [hB, Lagrange.degree_basis hinj him, card_range]
+    have : 0 < grid.size := hg.1
+    exact_mod_cast Nat.sub_lt this Nat.one_pos
+  have hev : ∀ j ∈ range grid.size, B.eval (grid.getD j 0) = if j = i then 1 else 0 := by
+    intro j hj
+    by_cases hji : j = i
+    · subst hji
+      rw [if_pos rfl, hB]
+      exact Lagrange.eval_basis_self (v := fun j => grid.getD j 0) hinj him
+    · rw [if_neg hji, hB]
+      exact Lagrange.eval_basis_of_ne (v := fun j => grid.getD j 0) (Ne.symm hji) hj
+  have e1 := hv B hdeg
+  have e2 := h k hk B hdeg
+  rw [← e2] at e1
+  have s1 : ∑ j ∈ range grid.size, v j * B.eval (grid.getD j 0) = v i := by
+    rw [sum_congr rfl (fun j hj => by rw [hev j hj])]
+    simp [him]
+  have s2 : ∑ j ∈ range grid.size, w.getD (j + k * grid.size) 0 * B.eval (grid.getD j 0)
+      = w.getD (i + k * grid.size) 0 := by
+    rw [sum_congr rfl (fun j hj => by rw [hev j hj])]
+    simp [him]
+  rw [s1, s2] at e1
+  exact e1
+
 /-- the empty grid is outside the function's domain: the C++ reads `grid[0]` -/
 theorem fdiff_empty (M : ℕ) (z : ℚ) : weights #[] M z = .error .oob := rfl
 
